@@ -212,7 +212,9 @@ impl Property for C15 {
         let ntags = *ctx.ch.pick(&[1usize, 1, 2, 3, 8, 64]);
         let start = ctx.ch.draw(256) as u8;
         let tags: Vec<u8> = (0..ntags).map(|i| start.wrapping_add(i as u8)).collect();
+        let registration = crate::props::c14::registration_list(ctx, &tags);
         let cfg = CCfg {
+            registration,
             n_servers: 1 + ctx.ch.index(2),
             n_clients: 1 + ctx.ch.index(3),
             tags,
